@@ -3,6 +3,7 @@ import MuduoVerif.Proofs.ConnProgress
 import MuduoVerif.Proofs.OwnerStrand
 import MuduoVerif.Proofs.ConnSkelTie
 import MuduoVerif.Proofs.SysSkelTie
+import MuduoVerif.Proofs.OwnerSkelTie
 /-!
 # C02 — each connection gets exactly one UP, then messages, then exactly one DOWN; clean destruction
 
@@ -593,5 +594,38 @@ theorem socket_dtor_closes_once :
     Gen.SysSkel.socketsClose =
       [.act (.sys "close" "sockfd"), .ite "<result> < 0" [.act (.log .syserr)] []] :=
   ⟨SysSkel.skeleton_socketCtor, SysSkel.skeleton_socketFd, SysSkel.skeleton_socketDtor, SysSkel.skeleton_socketsClose⟩
+
+/-! ## T1, statement order of `TcpServer.cc` -/
+
+/-- T1, the statement order of every function of `TcpServer.cc` is the one the steps of `Model/Owner.lean` assume
+(`Model/OwnerSkelDecl.lean`; re-extracted from /repo on every run into `Generated/OwnerSkel.lean`, proved in
+`Proofs/OwnerSkelTie.lean`), and what the order is needed for: **`handover_is_last`** - in `newConnection` the hand-over
+`ioLoop->runInLoop(connectEstablished)` is the only hand-off, all four callbacks (the close callback among them) are
+installed on the connection before it and no action of the acceptor thread on the connection follows it (so `Owner.accept`
+may be one atomic step: the io loop can run `connectEstablished`, see the peer's FIN and call `closeCallback_` before the
+acceptor thread executes another instruction); the map entry exists and the connection was created with that very
+`ioLoop` before the hand-over; `removeConnectionInLoop` erases before it queues `connectDestroyed`; `~TcpServer` lets the
+life token expire first and resets each entry before its hand-off; `start()` starts the pool before the acceptor listens. -/
+theorem server_statement_order_tied :
+    (Gen.OwnerSkel.ctor = OwnerSkel.Decl.ctor ∧
+     Gen.OwnerSkel.dtor = OwnerSkel.Decl.dtor ∧
+     Gen.OwnerSkel.setThreadNum = OwnerSkel.Decl.setThreadNum ∧
+     Gen.OwnerSkel.start = OwnerSkel.Decl.start ∧
+     Gen.OwnerSkel.newConnection = OwnerSkel.Decl.newConnection ∧
+     Gen.OwnerSkel.removeConnection = OwnerSkel.Decl.removeConnection ∧
+     Gen.OwnerSkel.removeConnectionGuarded = OwnerSkel.Decl.removeConnectionGuarded ∧
+     Gen.OwnerSkel.removeConnectionIfAlive = OwnerSkel.Decl.removeConnectionIfAlive ∧
+     Gen.OwnerSkel.removeConnectionInLoop = OwnerSkel.Decl.removeConnectionInLoop) ∧
+    OwnerSkel.HandoverLast "conn" "TcpConnection::connectEstablished(conn)"
+      ["setConnectionCallback", "setMessageCallback", "setWriteCompleteCallback", "setCloseCallback"]
+      Gen.OwnerSkel.newConnection ∧
+    OwnerSkel.Precedes (.mapInsert "connName" "conn") OwnerSkel.Act.isHandoff (OwnerSkel.flatten Gen.OwnerSkel.newConnection) ∧
+    OwnerSkel.Precedes (.mapErase "conn.name()") OwnerSkel.Act.isHandoff (OwnerSkel.flatten Gen.OwnerSkel.removeConnectionInLoop) ∧
+    OwnerSkel.Precedes (.on "alive_" "reset" "")
+      (fun a => a.isHandoff || a.touches "conn" || a.touches "item.second") (OwnerSkel.flatten Gen.OwnerSkel.dtor) ∧
+    OwnerSkel.Precedes (.on "threadPool_" "start" "threadInitCallback_") OwnerSkel.Act.isHandoff
+      (OwnerSkel.flatten Gen.OwnerSkel.start) :=
+  ⟨OwnerSkel.skeletons_agree, OwnerSkel.handover_is_last, OwnerSkel.insert_precedes_handover.1,
+   OwnerSkel.erase_precedes_destroy.1, OwnerSkel.token_expires_first.1, OwnerSkel.pool_before_listen⟩
 
 end MuduoVerif.C02
